@@ -19,6 +19,7 @@ func init() {
 }
 
 func checkC15(c *Ctx) {
+	e1CheckConstants(c, "C15-K6", []string{"dhcpv4.MessageType", "dhcpv4.OpcodeType"}, 11)
 	r := c.R
 	r.Decides = append(r.Decides,
 		"K1 PrependModifiers(m, other…) returns other followed by m; newDHCPv4 applies the modifiers in slice order after setting the defaults, hence caller modifiers prevail; New draws the transaction id before the modifiers run",
@@ -28,6 +29,10 @@ func checkC15(c *Ctx) {
 	r.NotDecided = append(r.NotDecided, "byte-for-byte equality of echoed options beyond 'the stored value is the source value'", "interplay with arbitrary user modifiers")
 	e6CheckProp(c, "C15-K2", "C15", 22)
 	c15Order(c)
+	// "copies … when present, omits them otherwise" is decided on the decoded option map: a code's value is
+	// exactly append(previous value, consumed chunk) — in particular nil stays nil for a zero-length option
+	// (shared with C01-K4)
+	c09Reassembly2(c, "C15-K7")
 	// K4
 	e := getE3(c)
 	for _, n := range []string{"NewRequestFromOffer", "NewRenewFromAck", "NewReplyFromRequest", "NewReleaseFromACK"} {
@@ -146,18 +151,32 @@ func c15Order(c *Ctx) {
 }
 
 func checkC13(c *Ctx) {
+	e1CheckConstants(c, "C13-K6", []string{"dhcpv4.MessageType", "dhcpv6.MessageType", "dhcpv4.OpcodeType"}, 31)
 	r := c.R
 	r.Decides = append(r.Decides,
 		"K1 RequestFromOffer: the matcher given to SendAndRead is IsAll(IsCorrectServer(offer.ServerIdentifier()), IsMessageType(ACK, NAK)); a NAK returns ErrNak{Offer: offer, Nak: response}; otherwise Lease{Offer: offer, ACK: response}",
 		"K2 NewRequestFromOffer recipe (reply correlation, REQUEST, requested address ← offer.yiaddr, server id copied from the offer)",
 		"K3 Renew: NewRenewFromAck recipe (ciaddr ← ack.yiaddr, unicast, REQUEST, no requested-address, no server-id), matcher as K1 with the lease's offer; Release: one WriteTo of NewReleaseFromACK(lease.ACK).ToBytes() to the lease's server, port 67",
 		"K4 DiscoverOffer matches OFFER, Inform matches ACK; matcher semantics (IsMessageType, IsCorrectServer, IsAll)",
-		"K5 v6: Solicit matches ADVERTISE; RapidSolicit matches {REPLY, ADVERTISE}, returns a REPLY directly and otherwise calls Request; NewRequestFromAdvertise requires type ADVERTISE, client id, server id, IA_NA and carries those option objects with a fresh transaction id")
+		"K5 v6: Solicit matches ADVERTISE; RapidSolicit matches {REPLY, ADVERTISE}, returns a REPLY directly and otherwise calls Request; NewRequestFromAdvertise requires type ADVERTISE, client id, server id, IA_NA and carries those option objects with a fresh transaction id",
+		"K7 (shared C10-K1/K2/K7, C01-K4) the messages an exchange is built from are the ones received: per-datagram read buffer, decoded message not aliasing it, option values = bytes consumed for that code")
 	r.NotDecided = append(r.NotDecided, "behaviour under arbitrary server histories beyond what C10–C12 give", "correctness of net.IP.Equal")
 	e6CheckProp(c, "C13-K1", "C13", 18)
 	c13Nak(c)
 	c13Release(c)
 	c13Matchers(c)
+	// the OFFER/ADVERTISE kept while the REQUEST is outstanding must stay what was received: the receive
+	// loops deliver messages that share no memory with the read buffer (shared with C10-K7), and decoded
+	// option values are exactly the bytes consumed for their code (shared with C01-K4)
+	for _, short := range []string{"nclient4", "nclient6"} {
+		a := resolveClientAnchors(c, short)
+		if len(a.errs) > 0 {
+			r.Undecided("C13-anchor", short+": "+strings.Join(a.errs, "; "), "-", "role-based anchors did not resolve")
+			continue
+		}
+		c10RecvLoop(c, a)
+	}
+	c09Reassembly2(c, "C13-K7")
 }
 
 // c13Nak: the NAK branch returns *ErrNak{Offer, Nak}
@@ -287,6 +306,7 @@ func c13Matchers(c *Ctx) {
 }
 
 func checkC16(c *Ctx) {
+	e1CheckConstants(c, "C16-K7", []string{"dhcpv6.MessageType"}, 20)
 	r := c.R
 	r.Decides = append(r.Decides,
 		"K1 EncapsulateRelay: type guard; LinkAddr/PeerAddr from the arguments; hop count = inner hop + 1 if the inner message is a relay else 0; exactly one relay-message option wrapping the argument; DecapsulateRelay returns that option's message",
